@@ -953,6 +953,8 @@ def run(ctx):
     ctx.floor("C16.R8", 6, "done()/again() outcomes of the three finite sources + read()==0 of File/Tcp sources")
     rb = repeat_blocks(facts)
     from . import c14, c19
+    c14.rule_r13(facts, ctx, rule_id="C16.R15")      # zeros behind the bytes read are emitted as data, EOF only after them (seed s10-c16)
+    ctx.floor("C16.R15", 1, "staging buffers stored into a carry buffer (same rule as C14.R13)")
     c14.rule_r4(facts, c19._Retag(ctx, "C14.R4", "C16.R10"))   # a fast path that overtakes buffered bytes emits the file's bytes out of order
     ctx.floor("C16.R10", 1, "FileSource fast path (same rule as C14.R4)")
     rule_r9(facts, ctx, scope=lambda b: b.self_adt in rb)
